@@ -21,6 +21,10 @@ family adds one parameter point with 600 trials (repeating pattern: per logical 
 Pauli type, 60 of each other, every fifth trial outside the codespace) split into 2 or 3 files of
 unequal length in 6 container combinations x {explicit paths, directory}.
 
+An identical-content family stores the same records in 2 or 3 distinct files (different names,
+directories, plain/gz/zip member/merged) next to at most one other file, the equal files at every
+position: the pooled numbers count every file.
+
 A merge-history family runs sequences of real `merge-results` commands on 3 (thorough also 4) part
 files - ordered input selections, output = a fresh path or any one of the inputs (incremental
 merging), merged files merged again - and analyses the output after every command: it must report
@@ -71,7 +75,10 @@ RULE = ('one sub-case = (k, trial set, set partition of the 5 trials of point A 
         'ones (k=2: 8 sets = all 32 trial types, k=3: 3 sets). Every layout also carries points B (other error '
         'rate) and C (same rate as A, noise direction 1e-8 away). Both tiers add the large-count family: per k, '
         '600 trials of one point in files of lengths [150,450] and [100,257,243] x 6 kind combinations x '
-        '{explicit paths, directory}. Merge-history family (both tiers): the trial multiset in 3 part '
+        '{explicit paths, directory}. Identical-content family (both tiers): 2..4 distinct files of which 2 or 3 '
+        'hold equal records (same inputs, outcomes, wall_time), the equal ones at every position, two record '
+        'contents (same-seed chunks / all-success chunks), 6 container assignments x {explicit paths, nested '
+        'directories}; every file counts. Merge-history family (both tiers): the trial multiset in 3 part '
         'files (thorough, k=1: also 4); every sequence of merge-results commands, each = an ordered selection of '
         '>= 2 present files x output in {fresh path, each of its inputs}, consumed inputs removed, until one file '
         'is left; the output is analysed after every command (quick adds, for k=1, 4 parts merged pairwise and '
@@ -261,6 +268,11 @@ def cases(tier, seed):
     for k in (1, 2, 3):
         for split in LARGE_SPLITS:
             out.append({'family': 'large', 'k': k, 'split': split})
+    # identical-content family: several distinct files hold equal records
+    for k in (1, 2, 3):
+        for variant in ('same-seed', 'all-success'):
+            for seq in DUP_SEQUENCES:
+                out.append({'family': 'dup', 'k': k, 'variant': variant, 'seq': seq})
     # merge histories: one work item per (k, ordered input selection of the first merge command)
     for k in (1, 2, 3):
         for n_parts in b['merge_parts'][str(k)]:
@@ -450,7 +462,7 @@ def _file_records(part, a_types, b_types, c_types):
     return files
 
 
-def _build(ctx, d, files, kinds, order):
+def _build(ctx, d, files, kinds, order, identical=False):
     """Write the layout into directory d; return the argument for Analysis()."""
     perm = list(range(len(files))) if order == 'dir' else order
     plain = {}
@@ -469,7 +481,11 @@ def _build(ctx, d, files, kinds, order):
         sub = os.path.join(d, nest) if kind in ('json', 'gz') else os.path.join(d, 'tmp', nest)
         os.makedirs(sub, exist_ok=True)
         path = os.path.join(sub, base + ext)
-        ctx.write(path, files[i], bare=(len(files[i]) == 1 and (i + len(files)) % 2 == 0), ulp=(i % 2 == 1))
+        if identical:
+            # files with equal records are written byte for byte alike (no bare/ulp variation)
+            ctx.write(path, files[i])
+        else:
+            ctx.write(path, files[i], bare=(len(files[i]) == 1 and (i + len(files)) % 2 == 0), ulp=(i % 2 == 1))
         if kind == 'zip':
             zipped.append((pos, path))
         elif kind == 'merged':
@@ -506,6 +522,21 @@ def _digest(table):
     import hashlib
     import json
     return hashlib.sha1(json.dumps(table, sort_keys=True).encode()).hexdigest()[:10]
+
+
+DUP_SEQUENCES = ['XX', 'XXX', 'XXY', 'XYX', 'YXX', 'XXXY', 'XXYX', 'XYXX', 'YXXX']
+
+
+def dup_contents(k, variant):
+    """Record lists X (the content carried by several distinct files) and Y (another content)."""
+    a, b, c = trial_sets(k, 0)
+    if variant == 'same-seed':           # chunks that ran the same seed: equal records, mixed outcomes
+        return {'X': [('A', [a[1], a[0]]), ('B', [b[0], 0])], 'Y': [('A', [a[2], a[3]]), ('C', [c[0], 0])]}
+    return {'X': [('A', [0, 0])], 'Y': [('A', [a[1]]), ('B', [0])]}      # equal chunks of an all-success run
+
+
+def dup_kinds(nb):
+    return [tuple([c] * nb) for c in range(4)] + [tuple((i + sh) % 3 for i in range(nb)) for sh in (0, 1)]
 
 
 MERGE_PARTITION = {3: [[0, 1], [2], [3, 4]], 4: [[0], [1, 2], [3], [4]]}
@@ -659,7 +690,8 @@ def eval_case(case):
     if case.get('family') == 'merge':
         return _eval_merge(case)
     k = case['k']
-    large = case.get('family') == 'large'
+    fam = case.get('family')
+    large = fam == 'large'
     res = {'evals': 0, 'nontrivial': 0, 'violations': [], 'samples': [], 'outcomes': [],
            'extra': {'analyses': 0, 'violations_total': 0, 'layouts_with_violation': 0,
                      'raw_records_read': 0, 'merge_commands': 0, 'zip_archives': 0, 'large_count_analyses': 0}}
@@ -676,6 +708,18 @@ def eval_case(case):
             files.append([('A', pooled['A'][at:at + n])])
             at += n
         plan = [(kinds, o) for kinds in LARGE_KINDS[nb] for o in (list(range(nb)), 'dir')]
+    elif fam == 'dup':
+        s, mode, prefix = 0, None, ()
+        seq = case['seq']
+        nb = len(seq)
+        part = seq                       # reported as the content letter per file
+        content = dup_contents(k, case['variant'])
+        files = [[(lb, list(ts)) for lb, ts in content[c]] for c in seq]
+        pooled = {}
+        for f in files:
+            for lb, ts in f:
+                pooled.setdefault(lb, []).extend(ts)
+        plan = [(kinds, o) for kinds in dup_kinds(nb) for o in (list(range(nb)), 'dir')]
     else:
         s, part, mode, prefix = case['set'], case['part'], case['mode'], tuple(case['prefix'])
         nb = len(part)
@@ -700,8 +744,8 @@ def eval_case(case):
     def emit(key, detail):
         # at most 4 oracle mismatches + 2 split-dependence reports per case (first = simplest); all are counted
         res['extra']['violations_total'] += 1
-        if large:
-            key = dict(key, family='large')
+        if fam:
+            key = dict(key, family=fam)
         split_dep = key['kind'] == 'split-dependence'
         same = sum(1 for v in V if (v['key']['kind'] == 'split-dependence') == split_dep)
         if same < (2 if split_dep else 4) and not any(v['key'] == key for v in V):
@@ -717,6 +761,9 @@ def eval_case(case):
                                  'n_trials': len(pooled[lb])} for lb in labels}}
         if large:
             where['file_lengths'] = part if label != 'unsplit' else [N_LARGE]
+        elif fam == 'dup':
+            where['content_per_file'] = part if label != 'unsplit' else 'all records in one file'
+            where['variant'] = case['variant']
         else:
             where['partition'] = part if label != 'unsplit' else [list(range(N_A))]
         base_key = {'k': k, 'n_files': len(file_recs)}
@@ -728,7 +775,7 @@ def eval_case(case):
             with warnings.catch_warnings():
                 warnings.simplefilter('ignore')
                 try:
-                    arg = _build(ctx, d, file_recs, kinds, order)
+                    arg = _build(ctx, d, file_recs, kinds, order, identical=(fam == 'dup'))
                     table, rows, n_raw = ctx.analyse(arg)
                 except _MissingColumns as exc:
                     emit(dict(base_key, kind='missing-column', column=exc.args[0][0]),
@@ -790,7 +837,7 @@ def eval_case(case):
             table = run('split', files, kinds, order)
             if len(res['samples']) < 2 and (order == 'dir' or len(set(kinds)) > 1 or nb == 1):
                 res['samples'].append({
-                    'k': k, 'trial_set': s, 'family': 'large' if large else 'partitions',
+                    'k': k, 'trial_set': s, 'family': fam or 'partitions',
                     'partition_or_file_lengths': part, 'kinds': [KINDS[c] for c in kinds], 'order': order,
                     'records_per_file': [brief(f) for f in files],
                     'reported': None if table is None else {
